@@ -93,6 +93,7 @@ type VerifSAOpts struct {
 	MaxTokenAge   time.Duration
 	HandshakeIdle time.Duration // of the server config: Retry tokens live twice as long
 	TLS           *tls.Config
+	NextCID       func() []byte // scripted connection ID generator: a non-nil result is the next generated ID
 }
 
 // VerifSANewConn: the arguments handleInitialImpl passed to newConn.
@@ -139,7 +140,7 @@ func VerifNewSA(o VerifSAOpts) *VerifSA {
 		tokenGenerator:            sa.gen,
 		maxTokenAge:               o.MaxTokenAge,
 		verifySourceAddress:       o.VerifySrc,
-		connIDGenerator:           &protocol.DefaultConnectionIDGenerator{ConnLen: 4},
+		connIDGenerator:           verifSAGen{next: o.NextCID},
 		statelessResetter:         newStatelessResetter(nil),
 		connQueue:                 make(chan *Conn, protocol.MaxAcceptQueueSize),
 		errorChan:                 make(chan struct{}),
@@ -356,4 +357,32 @@ func VerifSAParseClose(data []byte, keyCID []byte, v Version) (code uint64, ok b
 		return 0, false
 	}
 	return c, true
+}
+
+// verifSAGen: the default generator unless the harness scripts the next ID (a custom ConnectionIDGenerator is allowed)
+type verifSAGen struct{ next func() []byte }
+
+func (g verifSAGen) ConnectionIDLen() int { return 4 }
+func (g verifSAGen) GenerateConnectionID() (protocol.ConnectionID, error) {
+	if g.next != nil {
+		if b := g.next(); b != nil {
+			return protocol.ParseConnectionID(b), nil
+		}
+	}
+	return (&protocol.DefaultConnectionIDGenerator{ConnLen: 4}).GenerateConnectionID()
+}
+
+// CloseConn ends connection i the way a failed handshake does (destroy: its connection IDs leave the routing map).
+func (sa *VerifSA) CloseConn(i int) { sa.Conns[i].conn.destroy(errors.New("verif: connection closed by the harness")) }
+
+// RetireClientDCID retires the client-chosen DCID of connection i through the connection's own connection ID
+// generator: the two calls the connection makes for it after the handshake (SetHandshakeComplete queues the ID and
+// forgets it as "initial client DCID", RemoveRetiredConnIDs removes it from the routing map once due). Going through
+// the generator matters: removing the key from the map directly would leave the generator believing it still owns the
+// ID, and a later RemoveAll would remove the key a second time (by then possibly another connection's).
+// Must be called while the connection's run loop is durably blocked (after synctest.Wait).
+func (sa *VerifSA) RetireClientDCID(i int) {
+	g := sa.Conns[i].conn.connIDGenerator
+	g.SetHandshakeComplete(0)
+	g.RemoveRetiredConnIDs(monotime.Now())
 }
